@@ -16,11 +16,12 @@ def FragL0 (l : List Expr) : Bool := FragL l
 
 mutual
 /-- structured statements over agent-link's expression / simple-statement fragment: if [else], repeat while, repeat with a
-    LOCAL loop variable (up and down) -/
+    LOCAL loop variable (up and down), repeat with a LOCAL variable in a list -/
 def FragT : Stmt → Bool
   | .ifThen c t e => FragE c && FragTs t && FragTs e
   | .repeatWhile c b => FragE c && FragE0 c && FragTs b
   | .repeatWith (.var .loc v) a b _ body => idOk v && FragE a && FragE b && FragTs body
+  | .repeatIn (.var .loc v) l body => idOk v && FragE l && FragTs body
   | .set lv v => FragS (.set lv v) && FragE0 v
   | .call f as => FragS (.call f as)
   | .exit => true
@@ -51,6 +52,14 @@ def EmbSrc1 : Stmt → Src → Prop
       incr.code = .binary (S "assign") p3 (.leaf .localVar (.s v) pv3)
         (.binary (S "add") p4 (.leaf .const (.s (stepStr down)) p5) (.leaf .localVar (.s v) pv4)) ∧
       Emb a ra ∧ Emb b rb ∧ EmbSrc body body'
+  | .repeatIn (.var .loc v) l body, x =>
+    ∃ (presz : Nat) (bp : Smp) (incrsz postsz csz : Nat) (body' : List Src) (pb pk pc pl ps pg pl2 pv : Int) (ln : Node),
+      x = .loop (.in_ presz bp incrsz postsz) csz
+        (.binary (S "lte") pb (.leaf .const (.s (S "1")) pk) (.callFn (.s (S "count")) pc (.loadList (S "<load_list>") pl [ln]) true false false .none)) body' ∧
+      bp.off < bp.sz ∧
+      bp.code = .binary (S "assign") ps (.leaf .localVar (.s v) pv)
+        (.callFn (.s (S "getAt")) pg (.loadList (S "<load_list>") pl2 [.leaf .const (.s (S "1")) pk, ln]) true false false .none) ∧
+      Emb l ln ∧ EmbSrc body body'
   | s, x => ∃ (sm : Smp) (p : Int), x = .simple sm ∧ sm.off < sm.sz ∧ EmbS s (.stmt p sm.code) ∧ PlainStmt (.stmt p sm.code)
 def EmbSrc : List Stmt → List Src → Prop
   | [], xs => xs = []
